@@ -130,3 +130,10 @@ def render_plain(items, encoding, eol=b'\n'):
     for pw, k in items:
         out += (pw.encode(encoding) + eol) * k
     return out
+
+def render_prefix(items, encoding, eol=b'\n'):
+    """The same list as `sort | uniq -c` writes it (for --prefixcount): right-aligned count, one blank, the password."""
+    out = b''
+    for pw, k in items:
+        out += (b'%7d ' % k) + pw.encode(encoding) + eol
+    return out
